@@ -68,6 +68,7 @@ import GoSquare.Properties.C20
 #print axioms GoSquare.sortedElems_sorted
 #print axioms GoSquare.sortedElems_stable
 #print axioms GoSquare.allElements_keys
+#print axioms GoSquare.C04.wrappedPFBs_are_the_recorded_wrappers
 #print axioms GoSquare.C05.aligned_block_is_row_inner_node
 #print axioms GoSquare.C05.subtree_roots_are_row_inner_nodes
 #print axioms GoSquare.C05.chunks_getElem
